@@ -321,9 +321,31 @@ fn run(ctx: &Ctx, roundtrip: bool) {
                 while stream.len() % 3 != 0 {
                     stream.push(0.25);
                 }
+                // how the buffer handed to the conversion is allocated: 0 = exact capacity (clone), otherwise with slack
+                // (built by push(), or reserved 2x / 2x+1 / 4x / +1) - the conversions work in place on the caller's Vec
+                let capmode = std::cell::Cell::new(0usize);
                 let check_image = |img: Vec<[f32; 3]>, what: &str| {
                     let n = img.len();
-                    let (res, want_rt): (Result<Vec<[f32; 3]>, String>, bool) = if roundtrip { (f(img.clone()).and_then(|l| gam_of(t, l)), true) } else { (f(img.clone()), false) };
+                    let feed = || -> Vec<[f32; 3]> {
+                        let cap = match capmode.get() {
+                            0 => return img.clone(),
+                            1 => {
+                                let mut o = Vec::new();
+                                for p in img.iter() {
+                                    o.push(*p);
+                                }
+                                return o;
+                            }
+                            2 => 2 * n,
+                            3 => 2 * n + 1,
+                            4 => 4 * n + 3,
+                            _ => n + 1,
+                        };
+                        let mut o = Vec::with_capacity(cap);
+                        o.extend_from_slice(&img);
+                        o
+                    };
+                    let (res, want_rt): (Result<Vec<[f32; 3]>, String>, bool) = if roundtrip { (f(feed()).and_then(|l| gam_of(t, l)), true) } else { (f(feed()), false) };
                     let Ok(out) = res else { return };
                     if out.len() != n {
                         return;
@@ -385,6 +407,15 @@ fn run(ctx: &Ctx, roundtrip: bool) {
                     // two-tone frames
                     check_image(vec![[0.2, 0.4, 0.6], [0.2, 0.4, 0.6], [0.7, 0.1, 0.3], [0.7, 0.1, 0.3], [0.2, 0.4, 0.6], [0.2, 0.4, 0.6], [0.7, 0.1, 0.3], [0.7, 0.1, 0.3]], "pixel-doubled");
                 }
+                // the same kind of content in buffers that carry spare capacity
+                for mode in 1..=5usize {
+                    capmode.set(mode);
+                    let k = [0usize, 1, 2, 5, 33, 64][mode];
+                    let img: Vec<[f32; 3]> = base.iter().take(base.len() - k.min(base.len() - 1)).map(|a| [*a, 1.0 - *a, *a * 0.5]).collect();
+                    extra_evals += img.len() as u64 * 3;
+                    check_image(img, "buffer-with-spare-capacity");
+                }
+                capmode.set(0);
                 // letterboxed: 16-pixel rows, whole rows of black above and between the rows of subjects, none below
                 {
                     let img: Vec<[f32; 3]> = base.iter().map(|a| [*a, 1.0 - *a, *a]).collect();
